@@ -72,3 +72,17 @@ Proof. exact mpc_pow_int_exact_branch. Qed.
 Print Assumptions C04_pow_int.
 Example C04_pow_witness : mpc_pow_int_nonneg (fone, fone) 4 53 RN = Ok (Mpf 1 1 2 1, fzero).   (* (1+i)^4 = -4 *)
 Proof. vm_compute. reflexivity. Qed.
+
+(* complex / real and real / complex *)
+From MP Require Import Proofs.CplxMpfDiv.
+Theorem C04_div_mpf : forall z p prec r, cfin z -> regular p -> 0 < prec ->
+  exists q, mpc_div_mpf z p prec r = Ok q /\ cfin q /\
+    cre q = RND r prec (cre z / rv p) /\ cim q = RND r prec (cim z / rv p).
+Proof. exact mpc_div_mpf_round. Qed.
+Theorem C04_mpf_div : forall p z prec r, fincanon p -> cfin z -> (0 < cabs2 z)%R -> 0 < prec ->
+  exists q, mpc_mpf_div p z prec r = Ok q /\ cfin q /\
+    let M := RND RD (prec + 10) (cre z * cre z + cim z * cim z) in
+    cre q = RND r prec (cre z * rv p / M) /\ cim q = RND r prec (- (cim z * rv p) / M) /\
+    (Rabs (cre q - rv p * cre z / cabs2 z) <= 3 * bpow radix2 (- prec + 1) * (Rabs (rv p) * sqrt (/ cabs2 z)))%R /\
+    (Rabs (cim q - rv p * (- cim z) / cabs2 z) <= 3 * bpow radix2 (- prec + 1) * (Rabs (rv p) * sqrt (/ cabs2 z)))%R.
+Proof. exact mpc_mpf_div_spec. Qed.
